@@ -592,6 +592,9 @@ def run_c01(ctx):
             sim_plan=[('c01sim_n3w2', 3, 2, 'MC_DagEmpty3', ctx.pick(250, 2500), 60),
                       ('c01sim_n2w2', 2, 2, 'MC_DagInit', ctx.pick(100, 800), 50)],
             dfs_plan=[(PAIR, ctx.pick(1500, 40000)), (REUSE, ctx.pick(1500, 40000))] + ([] if q else [(CHAIN3, 60000)]))
+    # the merge performed by Env.apply: what 'the complete update is readable' rests on
+    import conf_envops
+    conf_envops.run(ctx, tlc.workdir('c01envops'), 'C01')
 
 
 def run_c02(ctx):
